@@ -87,20 +87,22 @@ Section Filter.
         + unfold FiltOk; cbn. destruct ef as [|x pf]; cbn in *; [reflexivity|]. exists pf. auto.
         + destruct Hev as [N HN]. exists N. intros f Hf. rewrite (HN f Hf). reflexivity. }
     (* then the initialised closure *)
+    pose (G := fun (f : nat) (s1 : filt_st C) =>
+                 match fl_ref s1 with
+                 | None => Some (false, s1)
+                 | Some rf =>
+                     if rf <? d then
+                       match cadv f (fl_filter s1) d with
+                       | None => None
+                       | Some (r, f') =>
+                           let st2 := {| fl_child := fl_child s1; fl_filter := f'; fl_finit := true; fl_ref := r |} in
+                           match r with None => Some (false, st2) | Some rf' => Some (rf' =? d, st2) end
+                       end
+                     else Some (rf =? d, s1)
+                 end).
     assert (exists st', fl_child st' = fl_child st1 /\ FiltOk st' (dropwhile_lt d ef) /\
-              Ev (fun f => match fl_ref st1 with
-                           | None => Some (false, st1)
-                           | Some rf =>
-                               if rf <? d then
-                                 match cadv f (fl_filter st1) d with
-                                 | None => None
-                                 | Some (r, f') =>
-                                     let st2 := {| fl_child := fl_child st1; fl_filter := f'; fl_finit := true; fl_ref := r |} in
-                                     match r with None => Some (false, st2) | Some rf' => Some (rf' =? d, st2) end
-                                 end
-                               else Some (rf =? d, st1)
-                           end) (memb d ef, st')) as [st' [Hc' [Hok' Hev']]].
-    { unfold FiltOk in Hok1. rewrite Hi1 in Hok1. destruct (fl_ref st1) as [rf|] eqn:Er.
+              Ev (fun f => G f st1) (memb d ef, st')) as [st' [Hc' [Hok' Hev']]].
+    { unfold G. unfold FiltOk in Hok1. rewrite Hi1 in Hok1. destruct (fl_ref st1) as [rf|] eqn:Er.
       - destruct Hok1 as [pf [Hpf [Apf ->]]].
         destruct (rf <? d) eqn:E.
         + apply Z.ltb_lt in E.
@@ -125,9 +127,8 @@ Section Filter.
         + cbn. unfold FiltOk. rewrite Hi1, Er. reflexivity.
         + apply Ev_const. }
     exists st'. split; [congruence|]. split; [exact Hok'|].
-    unfold filt_accept.
-    eapply Ev_ext; [|eapply Ev_bind; [exact Hev1|exact Hev']].
-    intro f. cbn. destruct (fl_finit st); [reflexivity|].
+    eapply Ev_ext; [|exact (Ev_bind _ G _ _ Hev1 Hev')].
+    intro f. unfold G, filt_accept. cbn. destruct (fl_finit st); [reflexivity|].
     destruct (cnext f (fl_filter st)) as [[r f']|]; reflexivity.
   Qed.
 
@@ -181,8 +182,8 @@ Section Filter.
       destruct (filt_loop_none _ _ Hc2 Hf2) as [HR Hev2].
       exists (set_child C st1 k'). split; [exact HR|].
       eapply Ev2_step; [exact Eunf|exact Hev1|]. cbn beta iota.
-      rewrite Hc1. eapply Ev2_bind with (G := fun g f x => let '(r, c') := x in filt_loop C (cnext g) (cadv g) f (set_child C st1 c') r) in Hev2; [|exact Hevn].
-      eapply Ev2_ext; [|exact Hev2]. intros g f. cbn. destruct (cnext g (fl_child st)) as [[r c']|]; reflexivity.
+      rewrite Hc1.
+      exact (Ev2_bind_pair _ (fun g f r c' => filt_loop C (cnext g) (cadv g) f (set_child C st1 c') r) _ _ _ Hevn Hev2).
     - (* accepted *)
       exists st1. split.
       + cbn [uncons snd]. exists pc, (dropwhile_lt d ef). rewrite Hc1. repeat split; auto.
@@ -196,8 +197,8 @@ Section Filter.
         destruct (filt_loop_none _ _ Hc2 Hf2) as [HR Hev2].
         exists (set_child C st1 k'). split; [exact HR|].
         eapply Ev2_step; [exact Eunf|exact Hev1|]. cbn beta iota.
-        rewrite Hc1. eapply Ev2_bind with (G := fun g f x => let '(r, c') := x in filt_loop C (cnext g) (cadv g) f (set_child C st1 c') r) in Hev2; [|exact Hevn].
-        eapply Ev2_ext; [|exact Hev2]. intros g f. cbn. destruct (cnext g (fl_child st)) as [[r c']|]; reflexivity.
+        rewrite Hc1.
+        exact (Ev2_bind_pair _ (fun g f r c' => filt_loop C (cnext g) (cadv g) f (set_child C st1 c') r) _ _ _ Hevn Hev2).
       + cbn in Hk', Hevn. destruct Hcur as [Hdx Ax].
         assert (R (fl_child (set_child C st1 k')) pc') as Hc2 by exact Hk'.
         assert (FiltOk (set_child C st1 k') (dropwhile_lt d ef)) as Hf2 by exact Hf1.
@@ -207,8 +208,8 @@ Section Filter.
         rewrite E2 in HR, Hev2.
         exists st'. split; [exact HR|].
         eapply Ev2_step; [exact Eunf|exact Hev1|]. cbn beta iota.
-        rewrite Hc1. eapply Ev2_bind with (G := fun g f x => let '(r, c') := x in filt_loop C (cnext g) (cadv g) f (set_child C st1 c') r) in Hev2; [|exact Hevn].
-        eapply Ev2_ext; [|exact Hev2]. intros g f. cbn. destruct (cnext g (fl_child st)) as [[r c']|]; reflexivity.
+        rewrite Hc1.
+        exact (Ev2_bind_pair _ (fun g f r c' => filt_loop C (cnext g) (cadv g) f (set_child C st1 c') r) _ _ _ Hevn Hev2).
   Qed.
 
   (* entering the loop with whatever the child returned *)
@@ -238,8 +239,7 @@ Section Filter.
       exists st'. split; [exact HR|]. unfold spec_next.
       apply Ev2_diag with (F := fun g f => filt_next C (cnext g) (cadv g) f st).
       unfold filt_next.
-      eapply Ev2_bind with (G := fun g f x => let '(r, c') := x in filt_loop C (cnext g) (cadv g) f (set_child C st c') r) in Hev; [|exact Hevn].
-      eapply Ev2_ext; [|exact Hev]. intros g f. cbn. destruct (cnext g (fl_child st)) as [[r c']|]; reflexivity.
+      exact (Ev2_bind_pair _ (fun g f r c' => filt_loop C (cnext g) (cadv g) f (set_child C st c') r) _ _ _ Hevn Hev).
     - intros st p t [pc [ef [Hc [Hf ->]]]].
       pose proof (Hasc _ _ Hc) as Apc.
       destruct (Hadv _ _ t Hc) as [k' [Hk' Heva]]. unfold spec_advance in *.
@@ -252,12 +252,10 @@ Section Filter.
       + destruct (filt_loop_none (set_child C st k') ef Hc2 Hf) as [HR Hev].
         exists (set_child C st k'). split; [exact HR|].
         apply Ev2_diag with (F := fun g f => filt_adv C (cnext g) (cadv g) f st t). unfold filt_adv.
-        eapply Ev2_bind with (G := fun g f x => let '(r, c') := x in filt_loop C (cnext g) (cadv g) f (set_child C st c') r) in Hev; [|exact Heva].
-        eapply Ev2_ext; [|exact Hev]. intros g f. cbn. destruct (cadv g (fl_child st) t) as [[r c']|]; reflexivity.
+        exact (Ev2_bind_pair _ (fun g f r c' => filt_loop C (cnext g) (cadv g) f (set_child C st c') r) _ _ _ Heva Hev).
       + destruct (filt_loop_ok (length pc') pc' (set_child C st k') ef x (le_n _) Hc2 Hf Adw) as [st' [HR Hev]].
         exists st'. split; [exact HR|].
         apply Ev2_diag with (F := fun g f => filt_adv C (cnext g) (cadv g) f st t). unfold filt_adv.
-        eapply Ev2_bind with (G := fun g f x => let '(r, c') := x in filt_loop C (cnext g) (cadv g) f (set_child C st c') r) in Hev; [|exact Heva].
-        eapply Ev2_ext; [|exact Hev]. intros g f. cbn. destruct (cadv g (fl_child st) t) as [[r c']|]; reflexivity.
+        exact (Ev2_bind_pair _ (fun g f r c' => filt_loop C (cnext g) (cadv g) f (set_child C st c') r) _ _ _ Heva Hev).
   Qed.
 End Filter.
